@@ -269,8 +269,15 @@ func c03Metamorphic(c *vk.Ctx) {
 		}
 		if len(before) > 0 {
 			del := vk.Pick(r, before)
-			code := append(append([]codec.Ins{}, pending[:del]...), pending[del+1:]...)
-			try("delete-nonmatching-incmp-before-the-match", code)
+			// a line that cannot match still raises READIN (documented: from the first INCMP on), which failing
+			// instructions, CROAK and the end of the code look at. Deleting it is neutral only if READIN is raised at
+			// the same point anyway: the line is not the first INCMP of the block, or the next instruction is an INCMP.
+			if del != before[0] || pending[del+1].Op == codec.INCMP {
+				code := append(append([]codec.Ins{}, pending[:del]...), pending[del+1:]...)
+				try("delete-nonmatching-incmp-before-the-match", code)
+			} else {
+				c.Count("metamorphic_deletions_skipped(would move the point where READIN is raised)", 1)
+			}
 		}
 		if len(before) > 1 {
 			code := append([]codec.Ins{}, pending...)
